@@ -368,3 +368,19 @@ def write_replay(prop, name, case):
     with open(p, 'w') as f:
         json.dump(case, f, indent=1, default=str)
     return p
+
+
+def ground_ob(prop, oid, cls, desc, ok, detail=''):
+    """a finite, ground fact (table contents against an oracle or against each other): decided by direct evaluation;
+    recorded as an obligation so that evidence is uniform (the solver adds nothing here and is not pretended to)"""
+    o = Ob(oid, cls, 'GROUND', desc)
+    o.syntactic = True
+    o.key = oid
+    if ok:
+        o.verdict = 'discharged'
+    else:
+        o.verdict = 'violated'
+        o.reason = detail
+        o.replay = write_replay(prop, oid, {'kind': 'ground', 'property': prop, 'obligation': oid, 'statement': desc, 'observed': detail,
+                                           'includes': [], 'wrappers': [], 'impl': None, 'inputs': []})
+    return o
